@@ -106,7 +106,8 @@ def cmake_parse_error(text):
     with open(path, "wb") as f:
         f.write(("return()\n" + text).encode("utf-8"))
     p = subprocess.run([CMAKE, "-P", path], cwd=d, capture_output=True, text=True)
-    return p.returncode != 0 and ("Parse error" in p.stderr or "Syntax error" in p.stderr)
+    err = p.stderr.lower()
+    return p.returncode != 0 and ("parse error" in err or "syntax error" in err)
 
 
 FLAG_NAMES = ["function", "macro", "cpp_class", "cpp_attr", "cpp_constructor", "cpp_member", "ct_add_test", "add_test",
